@@ -116,7 +116,11 @@ def run_pls(ck, rng, tier, which):
         F0 = c02.preprocess(Y, ys)
         yavg = np.array(o["yavg"]) if o["yavg"] else np.zeros(ny)
         ysc = np.array(o["ysc"]) if o["ysc"] else np.ones(ny)
-        tol = 1e-8
+        # orthogonality is lost in proportion to the condition of the part of the preprocessed X that the extracted
+        # components span (the inner iteration itself stops at a relative change of 1e-8)
+        sv_ = np.linalg.svd(E0, compute_uv=False)
+        kap_ = sv_[0] / max(sv_[min(a, len(sv_)) - 1], 1e-300) if len(sv_) and sv_[0] > 0 else 1.0
+        tol = 1e-8 * max(1.0, kap_ / 50.0)
         bad = None
         tn = np.sqrt((T ** 2).sum(axis=0)) + 1e-300
         if which == "C03":
